@@ -259,3 +259,33 @@ fn lemma_success_xor_skipped(s: InsertionStatistics) -> (r: (bool, bool, bool))
   claim="InsertionStatistics: success XOR skipped; skipped_duplicate => skipped",
   mutant=dict(file=OPS, old="            InsertionResult::SkippedDuplicate | InsertionResult::SkippedDegeneracy\n",
               new="            InsertionResult::SkippedDuplicate\n", desc="SkippedDegeneracy no longer counts as skipped"))
+
+# ======================================================================================
+# C16 : toroidal wrapping contract
+# ======================================================================================
+TOR = "src/topology/spaces/toroidal.rs"
+GTM = "src/topology/traits/global_topology_model.rs"
+_REM = "f64::rem_euclid(x, p) replaced by its contract: x, p finite, p > 0 => 0 <= r <= p, and r == x when 0 <= x < p (CBMC's double % is imprecise); congruence r = x (mod p) is NOT assumed and not proved"
+for d, tier in [(2, "quick"), (3, "thorough")]:
+    K(f"wrap_coord.d{d}", ["C16", "C19"], TOR, "toroidal.rs", f"wrap_coord_d{d}", "K-callee",
+      [fn(TOR, "wrap_coord", within=r"impl<const D: usize>\s+ToroidalSpace<D>\s*\{")], tier=tier, timeout=300,
+      obligations=["some-implies-valid", "lower", "upper", "inrange-unchanged", "idempotent", "none-implies-invalid"],
+      assumed=[_REM],
+      claim="ToroidalSpace::wrap_coord for every f64 value, period and axis: Some(w) => 0 <= w < period, in-range values unchanged, idempotent; None <=> axis/value/period unusable",
+      mutant=dict(file=TOR, old="if !period.is_finite() || period <= 0.0 {", new="if !period.is_finite() || period < 0.0 {",
+                  desc="zero period accepted") if d == 2 else None)
+    K(f"canon_space.d{d}", ["C16"], TOR, "toroidal.rs", f"canonicalize_point_d{d}", "K-callee",
+      [fn(TOR, "canonicalize_point", within=r"impl<const D: usize>\s+TopologicalSpace\s+for\s+ToroidalSpace<D>\s*\{")], tier=tier, timeout=300,
+      obligations=["in-box", "inrange-unchanged"], assumed=[_REM],
+      claim="ToroidalSpace::canonicalize_point: every finite coordinate on a usable axis ends in [0, period); in-range coordinates unchanged")
+
+for nm, d, t, tier in [("d2_f64", 2, "f64", "quick"), ("d3_f64", 3, "f64", "thorough"), ("d2_f32", 2, "f32", "thorough")]:
+    K(f"canon_model.{nm}", ["C16", "C19"], GTM, "gtm.rs", f"canon_model_{nm}", "K-callee",
+      [fn(GTM, "canonicalize_point_in_place", within=r"impl<const D: usize>\s+GlobalTopologyModel<D>\s+for\s+ToroidalModel<D>\s*\{"),
+       fn(GTM, "validate_configuration", within=r"impl<const D: usize>\s+GlobalTopologyModel<D>\s+for\s+ToroidalModel<D>\s*\{")],
+      tier=tier, timeout=600, assumed=[_REM],
+      obligations=["ok-implies-valid", "in-box", "inrange-unchanged", "idempotent-ok", "idempotent", "err-implies-invalid", "badconfig-untouched"],
+      claim=f"ToroidalModel::<{d}>::canonicalize_point_in_place::<{t}> (the wrapper the builder and insert use): Ok <=> finite coords and usable periods; "
+            "Ok => every coordinate in [0, period), in-range unchanged, idempotent; invalid configuration => point untouched",
+      mutant=dict(file=GTM, old="Some(w) if w >= period => T::zero(),", new="Some(w) if w > period => T::zero(),",
+                  desc="the half-open guard `>=` becomes `>`") if nm == "d2_f64" else None)
